@@ -1298,6 +1298,35 @@ fn sum_exps(exps: &[Exp]) -> Exp {
     iter.fold(first, add_exp)
 }
 
+/// Rejects expressions holding an infinite or NaN constant (such as the
+/// `Infinity` constant or a folded `Infinity - Infinity`): they cannot become
+/// coefficients or right-hand sides of a linear model.
+fn ensure_finite_numbers(exp: &Exp) -> Result<(), LinearizationError> {
+    let mut pending = vec![exp];
+    while let Some(current) = pending.pop() {
+        match current {
+            Exp::Number(value) => {
+                if !value.is_finite() {
+                    return Err(LinearizationError::NonFiniteNumber(Box::new(exp.clone())));
+                }
+            }
+            Exp::Variable(_) => {}
+            Exp::Abs(inner) | Exp::Not(inner) | Exp::UnOp(_, inner) => pending.push(inner),
+            Exp::Min(exps) | Exp::Max(exps) | Exp::And(exps) | Exp::Or(exps) => {
+                pending.extend(exps);
+            }
+            Exp::Xor(lhs, rhs)
+            | Exp::Implies(lhs, rhs)
+            | Exp::Iff(lhs, rhs)
+            | Exp::BinOp(_, lhs, rhs) => {
+                pending.push(lhs);
+                pending.push(rhs);
+            }
+        }
+    }
+    Ok(())
+}
+
 fn variables_without_finite_bounds(exp: &Exp, bounds: &BoundsAnalyzer) -> Vec<String> {
     let mut variables = IndexSet::new();
     let mut pending = vec![exp];
@@ -1501,6 +1530,9 @@ impl Linearizer {
             Comparison::Equal => ValueRequirement::Exact,
         };
         let value = exp.linearize(self, requirement)?;
+        if !value.is_finite() {
+            return Err(LinearizationError::NonFiniteNumber(Box::new(exp)));
+        }
         self.linear_constraints
             .push(MidLinearConstraint::new_from_linearized_context(
                 value, comparison, name,
@@ -1590,12 +1622,18 @@ impl Linearizer {
             OptimizationType::Max => ValueRequirement::PreferHigher,
             OptimizationType::Satisfy => ValueRequirement::Exact,
         };
+        ensure_finite_numbers(&objective_exp)?;
         let linearized_objective = objective_exp.linearize(&mut context, objective_requirement)?;
+        if !linearized_objective.is_finite() {
+            return Err(LinearizationError::NonFiniteNumber(Box::new(objective_exp)));
+        }
         while let Some(constraint) = context.pop_constraint() {
             let is_logic_assertion = constraint.is_logic_assertion();
             let (lhs, op, rhs, name) = constraint.into_parts();
             let lhs = lhs.flatten().simplify();
             let rhs = rhs.flatten().simplify();
+            ensure_finite_numbers(&lhs)?;
+            ensure_finite_numbers(&rhs)?;
             if is_logic_assertion {
                 lower_logic_assertion(&lhs, true, &name, &mut context)?;
                 continue;
@@ -1699,6 +1737,7 @@ pub enum LinearizationError {
     VarAlreadyDeclared(String),
     UnimplementedExpression(Box<Exp>),
     NonBinaryLogicOperand(Box<Exp>),
+    NonFiniteNumber(Box<Exp>),
     MissingFiniteBounds {
         expression: Box<Exp>,
         requirement: &'static str,
@@ -1732,6 +1771,13 @@ impl Display for LinearizationError {
             }
             LinearizationError::NonBinaryLogicOperand(exp) => {
                 write!(f, "Logic operands must be boolean values, got: \"{}\"", exp)
+            }
+            LinearizationError::NonFiniteNumber(exp) => {
+                write!(
+                    f,
+                    "Infinite or undefined number in expression: \"{}\", a linear model needs finite coefficients",
+                    exp
+                )
             }
             LinearizationError::MissingFiniteBounds {
                 expression,
@@ -1865,6 +1911,11 @@ impl LinearizationContext {
     /// * `name` - Name of the variable to check
     pub fn has_var(&self, name: &String) -> bool {
         self.current_vars.contains_key(name)
+    }
+
+    /// Whether every coefficient and the constant term are finite numbers.
+    pub fn is_finite(&self) -> bool {
+        self.current_rhs.is_finite() && self.current_vars.values().all(|value| value.is_finite())
     }
 
     /// Multiplies all coefficients and the RHS by a scalar value.
